@@ -13,6 +13,7 @@
 #include <sys/wait.h>
 #include <sys/resource.h>
 #include <sys/time.h>
+#include <sched.h>
 
 int __real_pthread_create(pthread_t*, const pthread_attr_t*, void*(*)(void*), void*);
 int __real_pthread_join(pthread_t, void**);
@@ -315,6 +316,9 @@ static void child_run(void) {
   struct rlimit rl = { 0, 0 };
   setrlimit(RLIMIT_CORE, &rl);
   setpgid(0, 0);                       /* so that the parent can reap anything this run forks */
+  { /* simulated threads never run in parallel: keep them on one core so that baton hand-offs are cheap */
+    cpu_set_t cs; long nc = sysconf(_SC_NPROCESSORS_ONLN); if (nc < 1) nc = 1;
+    CPU_ZERO(&cs); CPU_SET((int)(getpid() % nc), &cs); sched_setaffinity(0, sizeof cs, &cs); }
   alarm((unsigned)g_timeout);
   void* stk = mmap(STACK_BASE, STACK_SIZE, PROT_READ | PROT_WRITE,
                    MAP_PRIVATE | MAP_ANONYMOUS | MAP_NORESERVE | MAP_FIXED_NOREPLACE, -1, 0);
